@@ -1,17 +1,28 @@
 package main
 
 import (
+	"fmt"
 	"go/token"
 	"go/types"
+	"os"
+	"sort"
 	"strings"
 
 	"golang.org/x/tools/go/ssa"
 )
 
 // Available-load equivalence (DESIGN §3.3): two loads of the same field of the same object (or two
-// lookups of the same key in the same field map) denote the same value when, on every path, no store
-// to that field, no lock acquisition/release, no blocking operation and no module call that may write
-// the field lies between them. Equivalent loads share one condition variable.
+// lookups of the same key in the same field map, two reads of the same local cell or slice element)
+// denote the same value when, on every path, no store to that location, no lock acquisition/release
+// of a lock held here, no blocking operation and no module call that may write it lies between them.
+// Equivalent loads share one condition variable.
+//
+// A location is named by its ACCESS PATH — `load|monitoredConn.conn|<lookup|GCPMultiEndpoint.pools|gme|t188>` —
+// which is a static string; whatever invalidates a location invalidates every path that goes through it.
+// Phase A is a plain must-analysis ("is the path's value available here?"); phase B, with the
+// generating loads (loads executed when their path is not available) fixed by phase A, propagates for
+// every available path the set of generating loads that can be the most recent one. Two loads are one
+// variable iff those sets are equal.
 
 // loadRep maps a load/lookup instruction to the name of its representative (set per function).
 var loadRep = map[ssa.Value]string{}
@@ -27,7 +38,7 @@ func loadKey(v ssa.Value) (key, field string, ok bool) {
 			return "load|" + f + "|" + baseKey(fa.X), f, true
 		}
 		// element of a slice: two reads of s[i] with nothing in between that could write an element (any store through an
-		// index address, any call) are one value — `if s[i] == nil { continue }; s[i].M()`
+		// index address or a computed pointer, any call) are one value — `if s[i] == nil { continue }; s[i].M()`
 		if ia, isIA := x.X.(*ssa.IndexAddr); isIA {
 			if _, isSlice := ia.X.Type().Underlying().(*types.Slice); isSlice {
 				return "elem|" + baseKey(ia.X) + "|" + baseKey(ia.Index), "", true
@@ -38,11 +49,11 @@ func loadKey(v ssa.Value) (key, field string, ok bool) {
 		switch a := x.X.(type) {
 		case *ssa.Alloc:
 			if cellLocalOnly(a, x.Parent()) {
-				return "cell|" + a.Name(), "", true
+				return "cell|" + a.Name() + ";", "", true
 			}
 		case *ssa.FreeVar:
 			if cellLocalOnly(a, x.Parent()) {
-				return "cell|^" + a.Name(), "", true
+				return "cell|^" + a.Name() + ";", "", true
 			}
 		}
 	case *ssa.Lookup:
@@ -57,19 +68,19 @@ func loadKey(v ssa.Value) (key, field string, ok bool) {
 	return "", "", false
 }
 
-// keyOperand names a lookup key so that equal keys compare equal: registers by name, loads by their representative.
+// keyOperand names a lookup key so that equal keys compare equal: registers by name, loads by their access path.
 func keyOperand(v ssa.Value) string {
-	if r, ok := loadRep[v]; ok {
-		return "rep:" + r
+	if k, _, ok := loadKey(v); ok {
+		return "<" + k + ">"
 	}
 	return v.Name() + ":" + vstr(v)
 }
 
-// baseKey names the object a field belongs to: a register, or — for a pointer read from a local
-// cell — the cell's current representative load.
+// baseKey names the object a location belongs to: a register, or — for a pointer that is itself read from
+// memory — the access path it was read through.
 func baseKey(v ssa.Value) string {
-	if r, ok := loadRep[v]; ok {
-		return "rep:" + r
+	if k, _, ok := loadKey(v); ok {
+		return "<" + k + ">"
 	}
 	return v.Name()
 }
@@ -104,7 +115,7 @@ func cellLocalOnly(cell ssa.Value, fn *ssa.Function) bool {
 	return false
 }
 
-type availState map[string]string // key -> representative
+type availState map[string]string // access path -> set of generating loads ("t5+t9"; "" in phase A)
 
 func (s availState) clone() availState {
 	r := availState{}
@@ -114,51 +125,40 @@ func (s availState) clone() availState {
 	return r
 }
 
-func meetAvail(a, b availState) availState {
-	r := availState{}
-	for k, v := range a {
-		if w, ok := b[k]; ok && w == v {
-			r[k] = v
-		}
-	}
-	return r
-}
-
 func sameAvail(a, b availState) bool {
 	if len(a) != len(b) {
 		return false
 	}
 	for k, v := range a {
-		if b[k] != v {
+		if w, ok := b[k]; !ok || w != v {
 			return false
 		}
 	}
 	return true
 }
 
-func (s availState) killField(f string) {
+// kill removes every path that goes through a location whose name contains one of the given fragments.
+func (s availState) kill(frags ...string) {
 	for k := range s {
-		if strings.HasPrefix(k, "load|"+f+"|") || strings.HasPrefix(k, "lookup|"+f+"|") {
-			delete(s, k)
-		}
-	}
-}
-
-// killCell: a store to a local cell invalidates its loads and every field load based on them.
-func (s availState) killCell(name string) {
-	rep, had := s["cell|"+name]
-	delete(s, "cell|"+name)
-	if had {
-		for k := range s {
-			if strings.HasSuffix(k, "|rep:"+rep) || strings.Contains(k, "|rep:"+rep+"|") {
+		for _, f := range frags {
+			if strings.Contains(k, f) {
 				delete(s, k)
+				break
 			}
 		}
 	}
 }
 
-// killAll: lock operations, blocking operations and lock-taking callees invalidate shared memory;
-// local cells are unaffected.
+func (s availState) killField(f string) { s.kill("load|"+f+"|", "lookup|"+f+"|") }
+
+// killCell: a store to a local cell invalidates its loads and every path through them.
+func (s availState) killCell(name string) { s.kill("cell|" + name + ";") }
+
+// killElems: slice elements are invalidated by any store through an index address or computed pointer and by any call.
+func (s availState) killElems() { s.kill("elem|") }
+
+// killAll: lock operations, blocking operations and callees that take a lock held here invalidate shared memory;
+// local cells themselves are unaffected (what is reached THROUGH them is shared memory).
 func (s availState) killAll() {
 	for k := range s {
 		if strings.HasPrefix(k, "cell|") {
@@ -168,42 +168,33 @@ func (s availState) killAll() {
 	}
 }
 
-// killElems: slice elements are invalidated by any indexed store and any call.
-func (s availState) killElems() {
-	for k := range s {
-		if strings.HasPrefix(k, "elem|") {
-			delete(s, k)
-		}
-	}
-}
-
-func (s availState) killEverything() {
-	for k := range s {
-		delete(s, k)
-	}
-}
-
 // computeLoadEquiv fills loadRep for fn.
 func computeLoadEquiv(p *Prog, sums *Summaries, lf *LockFacts, fn *ssa.Function) {
 	if len(fn.Blocks) == 0 {
 		return
 	}
-	in := map[*ssa.BasicBlock]availState{}
-	in[fn.Blocks[0]] = availState{}
-	// iterate to a fixpoint (must analysis, states only shrink)
-	transfer := func(b *ssa.BasicBlock, st availState, record bool) availState {
+	debug := debugEquiv != "" && strings.Contains(fname(fn), debugEquiv)
+	// generator[v]: decided by phase A — the path of load v is not available where v executes
+	generator := map[ssa.Value]bool{}
+	transfer := func(b *ssa.BasicBlock, st availState, phase int, record bool) availState {
 		st = st.clone()
-		for _, ins := range b.Instrs {
+		for idx, ins := range b.Instrs {
 			if v, ok := ins.(ssa.Value); ok {
 				if key, _, isL := loadKey(v); isL {
-					if rep, have := st[key]; have {
+					cur, have := st[key]
+					switch phase {
+					case 0:
 						if record {
-							loadRep[v] = rep
+							generator[v] = !have
 						}
-					} else {
-						st[key] = v.Name()
+						st[key] = ""
+					default:
+						if generator[v] || !have {
+							cur = v.Name()
+							st[key] = cur
+						}
 						if record {
-							loadRep[v] = v.Name()
+							loadRep[v] = cur
 						}
 					}
 					continue
@@ -214,23 +205,18 @@ func computeLoadEquiv(p *Prog, sums *Summaries, lf *LockFacts, fn *ssa.Function)
 				if fa, ok := x.Addr.(*ssa.FieldAddr); ok {
 					st.killField(fieldRefOfAddr(fa))
 				}
-				switch x.Addr.(type) {
-				case *ssa.FieldAddr, *ssa.Alloc, *ssa.FreeVar, *ssa.Global:
+				switch a := x.Addr.(type) {
+				case *ssa.FieldAddr, *ssa.Global:
+				case *ssa.Alloc:
+					if !storesBackOwnValue(b, idx, x) {
+						st.killCell(a.Name())
+					}
+				case *ssa.FreeVar:
+					if !storesBackOwnValue(b, idx, x) {
+						st.killCell("^" + a.Name())
+					}
 				default:
 					st.killElems() // a store through an index address or a computed pointer
-				}
-				switch a := x.Addr.(type) {
-				case *ssa.Alloc:
-					// `return picked, nil` with named results stores the cell's own current value back: not a change
-					if rep, have := st["cell|"+a.Name()]; have && loadRep[x.Val] == rep {
-						break
-					}
-					st.killCell(a.Name())
-				case *ssa.FreeVar:
-					if rep, have := st["cell|^"+a.Name()]; have && loadRep[x.Val] == rep {
-						break
-					}
-					st.killCell("^" + a.Name())
 				}
 			case *ssa.MapUpdate:
 				if f, _, ok := loadedField(x.Map); ok {
@@ -267,11 +253,21 @@ func computeLoadEquiv(p *Prog, sums *Summaries, lf *LockFacts, fn *ssa.Function)
 				_, isGo := ins.(*ssa.Go)
 				for _, g := range p.calleesOf(cc) {
 					if t := sums.Trans[g]; t != nil {
-						// a callee that takes a lock may release ours on the way (or wait for another writer): shared memory
-						// is stale afterwards. A goroutine started here runs concurrently: its lock operations do not
-						// release the spawner's locks; only what it writes is invalidated.
+						// a callee that takes a lock may release ours on the way: shared memory is stale afterwards — but only
+						// a callee that takes a lock which may be held HERE can do that; a callee that takes other locks leaves
+						// what our locks protect alone (and what no held lock protects can change at any time, call or no
+						// call). A goroutine started here runs concurrently: its lock operations do not release the spawner's
+						// locks; only what it writes is invalidated.
 						if len(t.Acquires) > 0 && !isGo {
-							st.killAll()
+							held := lf.MayHeldAt(ins)
+							if len(held) == 0 {
+								st.killAll()
+							}
+							for l := range t.Acquires {
+								if held[l] != 0 {
+									st.killAll()
+								}
+							}
 						}
 						for f := range t.Writes {
 							st.killField(f)
@@ -282,31 +278,134 @@ func computeLoadEquiv(p *Prog, sums *Summaries, lf *LockFacts, fn *ssa.Function)
 		}
 		return st
 	}
-	for changed, iter := true, 0; changed && iter < 40; iter++ {
-		changed = false
-		for _, b := range fn.Blocks {
-			st, ok := in[b]
-			if !ok {
-				continue
-			}
-			out := transfer(b, st, true)
-			for _, s := range b.Succs {
-				if cur, ok := in[s]; ok {
-					m := meetAvail(cur, out)
-					if !sameAvail(m, cur) {
-						in[s] = m
-						changed = true
-					}
+	order := rpo(fn)
+	if fn.Recover != nil {
+		order = append(order, fn.Recover)
+	}
+	// solve runs one phase to its fixpoint, optimistically (predecessors not visited yet are ignored): phase 0 intersects
+	// availability, phase 1 additionally unites the generator sets of the paths available on every predecessor.
+	solve := func(phase int) (map[*ssa.BasicBlock]availState, bool) {
+		in := map[*ssa.BasicBlock]availState{}
+		out := map[*ssa.BasicBlock]availState{}
+		for iter := 0; iter < 60; iter++ {
+			stable := true
+			for _, b := range order {
+				var st availState
+				if b == fn.Blocks[0] || b == fn.Recover {
+					st = availState{}
 				} else {
-					in[s] = out.clone()
-					changed = true
+					var first availState
+					for _, pr := range b.Preds {
+						if o, visited := out[pr]; visited && first == nil {
+							first = o
+						}
+					}
+					if first == nil {
+						continue // no predecessor visited yet
+					}
+					st = availState{}
+					for k := range first {
+						all := true
+						gens := map[string]bool{}
+						for _, pr := range b.Preds {
+							o, visited := out[pr]
+							if !visited {
+								continue
+							}
+							w, ok := o[k]
+							if !ok {
+								all = false
+								break
+							}
+							if w != "" {
+								for _, g := range strings.Split(w, "+") {
+									gens[g] = true
+								}
+							}
+						}
+						if !all {
+							continue
+						}
+						var names []string
+						for g := range gens {
+							names = append(names, g)
+						}
+						sort.Strings(names)
+						st[k] = strings.Join(names, "+")
+					}
+				}
+				in[b] = st
+				o := transfer(b, st, phase, false)
+				if prev, ok := out[b]; !ok || !sameAvail(prev, o) {
+					out[b] = o
+					stable = false
+				}
+			}
+			if stable {
+				return in, true
+			}
+		}
+		return in, false
+	}
+	giveUp := func() {
+		// no equivalences for this function: every load is its own variable
+		for _, b := range fn.Blocks {
+			for _, ins := range b.Instrs {
+				if v, ok := ins.(ssa.Value); ok {
+					delete(loadRep, v)
 				}
 			}
 		}
 	}
-	for _, b := range fn.Blocks {
-		if st, ok := in[b]; ok {
-			transfer(b, st, true)
+	inA, okA := solve(0)
+	if !okA {
+		giveUp()
+		return
+	}
+	for _, b := range order {
+		if st, ok := inA[b]; ok {
+			transfer(b, st, 0, true)
+		}
+	}
+	inB, okB := solve(1)
+	if !okB {
+		giveUp()
+		return
+	}
+	for _, b := range order {
+		if st, ok := inB[b]; ok {
+			if debug {
+				fmt.Println("DEBUG equiv in", b.Index, st)
+			}
+			transfer(b, st, 1, true)
 		}
 	}
 }
+
+// storesBackOwnValue: the store writes back a value that was loaded from the same cell earlier in the block with no
+// other store to the cell in between (`return picked, nil` with named results: `t = *picked; *picked = t`).
+func storesBackOwnValue(b *ssa.BasicBlock, idx int, st *ssa.Store) bool {
+	u, ok := st.Val.(*ssa.UnOp)
+	if !ok || u.Op != token.MUL || u.X != st.Addr || u.Block() != b {
+		return false
+	}
+	seenLoad := false
+	for i := 0; i < idx; i++ {
+		if b.Instrs[i] == ssa.Instruction(u) {
+			seenLoad = true
+			continue
+		}
+		if s2, isS := b.Instrs[i].(*ssa.Store); isS && seenLoad && s2.Addr == st.Addr {
+			return false
+		}
+	}
+	return seenLoad
+}
+
+func init() {
+	if os.Getenv("VERIF_DEBUG_EQUIV") != "" {
+		debugEquiv = os.Getenv("VERIF_DEBUG_EQUIV")
+	}
+}
+
+var debugEquiv string
